@@ -8,6 +8,7 @@ import Propka.Gen.Bonds
 import Propka.Gen.Protonate
 import Propka.Gen.Pipeline
 import Propka.Gen.Consts
+import Propka.Model.ResList
 /-! Line-protocol handler for the set-up pipeline at `Float`, with the tables regenerated from /repo. -/
 namespace Propka.Pipe
 open Propka Propka.Py Propka.Scoring
@@ -63,7 +64,16 @@ def shippedCP : CoupleSearch.CP Float :=
               if Gen.Cfg.f_pH == "variable" then none else pyFloat Gen.Cfg.f_pH.toList⟩,
     scaling := Gen.Consts.group_UNK_PKA_SCALINGF, fixed := Gen.Scoring.fixedPka, titratableTypes := Gen.Pipeline.intrinsicExcluded }
 
-def optsOf (pa to : String) : Opts := ⟨pa == "1", Groups.parseTO to⟩
+/-- the --titrate_only list: `-` (none), the parsed list as the harness spells it, or `raw:<hex>` - the text of the option as the
+    command line has it, parsed by the model of `parse_res_list` -/
+def titrateOnlyOf (to : String) : Option (List (String × Int × String)) :=
+  if to.startsWith "raw:" then
+    match ResList.parseResList (unhex (to.toList.drop 4)) with
+    | .ok l => some (l.map fun e => (str e.1, e.2.1, String.singleton e.2.2))
+    | .error _ => none
+  else Groups.parseTO to
+
+def optsOf (pa to : String) : Opts := ⟨pa == "1", titrateOnlyOf to⟩
 
 /-- the scoring model run on a prepared conformation -/
 def scoreOf (rp : String) (r : Prepared Float) : String :=
